@@ -5,25 +5,44 @@ import (
 	"go/ast"
 	"go/token"
 	"path/filepath"
+	"regexp"
 	"sort"
 	"strconv"
 	"strings"
 )
 
-// C03: for every type of x/crosschain/types that has a `ClaimHash` method, the `fmt.Sprintf` format string and
-// argument expressions of the hashed path, emitted as a Lean function over the model's claim record (so the path
-// the theorems talk about IS what the source says now), the list of hashed fields, the struct fields of the message
-// (tx.pb.go) so that a field added to the message but not to the hash is visible, how the path is hashed, and the
-// table chain name -> external address class (RegisterExternalAddress calls).
+// C03: for every type of x/crosschain/types that has a `ClaimHash` method
+//   - the hashed path as a Lean function over the model's claim record: the `fmt.Sprintf` format string and its argument
+//     EXPRESSIONS, translated structurally (receiver fields, local variables, calls of package functions and methods such
+//     as `strings.ToLower(m.X)` or `fxtypes.ParseFxTarget(m.TargetIbc, true).GetTarget()`, string concatenation,
+//     conversions).  Functions are emitted by name (`Go.<pkg>_<Func>`, `Go.<pkg>_<Type>_<Method>`); the ones that
+//     lean/FxVerif/Model/C03Go.lean models make the generated file compile, so that the model follows the code, the
+//     driver can still be compared with the real ClaimHash and the injectivity PROOF breaks; an unmodelled function makes
+//     the generated file itself fail to compile;
+//   - the list of hashed fields (every receiver field mentioned in an argument), the struct fields of the message
+//     (tx.pb.go), how the path is hashed, statements of ClaimHash that are not modelled;
+//   - `validGen`: the syntactic part of the type's `ValidateBasic` (source order, `validateBasic` helpers inlined),
+//     recognised check by check; an unrecognised statement is dropped (that only enlarges the valid set: sound for the
+//     theorems) and listed under `unmodelledChecks`;
+//   - `readFields`: the fields of the claim that x/crosschain/keeper reads while executing it (selectors and methods on
+//     every parameter / type-switch binding of that claim type, methods followed into x/crosschain/types);
+// plus the table chain name -> external address class (RegisterExternalAddress calls).
 func init() { register(extractC03) }
 
-const c03Pkg = "x/crosschain/types"
+const (
+	c03Pkg    = "x/crosschain/types"
+	c03Keeper = "x/crosschain/keeper"
+)
 
 type c03Seg struct {
-	Lit   string // literal text (when Verb == "")
-	Verb  string // d, s, v, t, x, ...
-	Field string // struct field
-	Tag   string // Go type tag of the rendered expression
+	Lit    string   // literal text (when Verb == "")
+	Verb   string   // d, s, v, t, x, ...
+	Field  string   // principal struct field ("" when the argument mentions none)
+	Fields []string // every receiver field mentioned by the argument
+	Tag    string   // Go type tag of the rendered expression
+	Lean   string   // Lean term of the argument
+	Src    string   // Go source of the argument
+	Plain  bool     // the argument is a plain receiver field (or field.String() of an Int)
 }
 
 func c03TypeTag(src string) string {
@@ -34,6 +53,8 @@ func c03TypeTag(src string) string {
 		return "string"
 	case "bool":
 		return "bool"
+	case "int":
+		return "int"
 	case "[]string":
 		return "sliceString"
 	case "cosmossdk_io_math.Int", "sdkmath.Int":
@@ -42,7 +63,13 @@ func c03TypeTag(src string) string {
 		return "sliceInt"
 	case "[]BridgeValidator":
 		return "sliceBridgeValidator"
+	case "":
+		return "Tunknown"
 	}
+	return "T" + c03San(src)
+}
+
+func c03San(src string) string {
 	var sb strings.Builder
 	for _, r := range src {
 		if (r >= 'a' && r <= 'z') || (r >= 'A' && r <= 'Z') || (r >= '0' && r <= '9') {
@@ -51,7 +78,7 @@ func c03TypeTag(src string) string {
 			sb.WriteByte('_')
 		}
 	}
-	return "T" + sb.String()
+	return sb.String()
 }
 
 func c03CharList(s string) string {
@@ -66,131 +93,796 @@ func c03CharList(s string) string {
 	return "[" + strings.Join(xs, ", ") + "]"
 }
 
-func extractC03(c *ctxT) {
-	structs := c.structs(c03Pkg)
-	type claimT struct {
-		Name    string
-		Segs    []c03Seg
-		Format  string
-		HashFn  string
-		Where   string
-		Fields  [][2]string
-		Problem string
+// ---------------------------------------------------------------------------------------------------------
+// expression translator
+
+type c03Val struct {
+	Lean   string
+	Type   string // Go type source; "@<rel>#<T>" for a named type of the repository; "" unknown
+	Fields []string
+	Plain  string // name of the receiver field when the expression is exactly that field
+	Segs   []c03Seg
+	Format string
+}
+
+type c03Tr struct {
+	c       *ctxT
+	rel     string
+	imports map[string]string
+	recvVar string
+	ftype   map[string]string
+	env     map[string]c03Val
+}
+
+// result types of the non-repository functions and methods an argument may plausibly go through
+var c03ExtResult = map[string]string{
+	"strings.ToLower": "string", "strings.ToUpper": "string", "strings.TrimSpace": "string", "strings.TrimPrefix": "string",
+	"strings.TrimSuffix": "string", "strings.Trim": "string", "strings.TrimLeft": "string", "strings.TrimRight": "string",
+	"strings.Join": "string", "strings.ReplaceAll": "string", "strings.Replace": "string", "strings.Title": "string",
+	"strings.Repeat": "string", "strings.ToTitle": "string", "strings.Fields": "[]string", "strings.Split": "[]string",
+	"encoding/hex.EncodeToString": "string", "encoding/hex.DecodeString": "[]byte",
+	"strconv.Itoa": "string", "strconv.FormatUint": "string", "strconv.FormatInt": "string", "strconv.FormatBool": "string", "strconv.Quote": "string",
+	"fmt.Sprint": "string", "fmt.Sprintf": "string",
+	"github.com/ethereum/go-ethereum/common.HexToAddress":   "common.Address",
+	"github.com/ethereum/go-ethereum/common.BytesToAddress": "common.Address",
+	"github.com/ethereum/go-ethereum/common.HexToHash":      "common.Hash",
+	"github.com/ethereum/go-ethereum/common.Bytes2Hex":      "string",
+	"github.com/ethereum/go-ethereum/common.FromHex":        "[]byte",
+	"common.Address.Hex": "string", "common.Address.String": "string", "common.Address.Bytes": "[]byte",
+	"common.Hash.Hex": "string", "common.Hash.String": "string", "common.Hash.Bytes": "[]byte",
+	"Int.String": "string", "Int.Uint64": "uint64", "Int.Int64": "int64", "Int.BigInt": "*big.Int", "Int.Abs": "Int", "Int.IsNil": "bool",
+	"*big.Int.String": "string", "*big.Int.Uint64": "uint64", "*big.Int.Int64": "int64", "*big.Int.Text": "string", "*big.Int.Bytes": "[]byte",
+	"path.Join": "string", "path.Clean": "string", "path/filepath.Join": "string",
+}
+
+func c03IsInt(t string) bool { return t == "cosmossdk_io_math.Int" || t == "sdkmath.Int" || t == "Int" }
+
+func c03Union(a, b []string) []string {
+	seen := map[string]bool{}
+	var out []string
+	for _, x := range append(append([]string{}, a...), b...) {
+		if !seen[x] {
+			seen[x] = true
+			out = append(out, x)
+		}
 	}
-	var claims []claimT
-	for _, fd := range c.funcDecls(c03Pkg) {
-		if fd.Name.Name != "ClaimHash" || fd.Recv == nil || fd.Body == nil {
-			continue
+	return out
+}
+
+func (x *c03Tr) unsupported(e ast.Node, why string) c03Val {
+	return c03Val{Lean: "Go.UNSUPPORTED_" + c03San(why) + "_" + c03San(x.c.src(e)), Type: ""}
+}
+
+// resultOf returns the (first) result type of a function or method declared in a repository package
+func (x *c03Tr) repoResult(rel, recv, name string) (string, bool) {
+	fd := x.c.findFunc(rel, recv, name)
+	if fd == nil || fd.Type.Results == nil || len(fd.Type.Results.List) == 0 {
+		return "", false
+	}
+	t := fd.Type.Results.List[0].Type
+	src := x.c.src(t)
+	if id, ok := t.(*ast.Ident); ok && x.c.structs(rel)[id.Name] != nil {
+		return "@" + rel + "#" + id.Name, true
+	}
+	if st, ok := t.(*ast.StarExpr); ok {
+		if id, ok := st.X.(*ast.Ident); ok && x.c.structs(rel)[id.Name] != nil {
+			return "@" + rel + "#" + id.Name, true
 		}
-		cl := claimT{Name: recvName(fd), Where: c.pos(fd)}
-		recvVar := ""
-		if len(fd.Recv.List[0].Names) == 1 {
-			recvVar = fd.Recv.List[0].Names[0].Name
+	}
+	return src, true
+}
+
+func (x *c03Tr) args(as []ast.Expr) (string, []string) {
+	var sb strings.Builder
+	var fields []string
+	for _, a := range as {
+		v := x.expr(a)
+		sb.WriteString(" " + c03Paren(v.Lean))
+		fields = c03Union(fields, v.Fields)
+	}
+	return sb.String(), fields
+}
+
+func c03Paren(s string) string {
+	if strings.ContainsAny(s, " \n") && !(strings.HasPrefix(s, "[") && strings.HasSuffix(s, "]") && !strings.Contains(s, "++")) {
+		return "(" + s + ")"
+	}
+	return s
+}
+
+func (x *c03Tr) expr(e ast.Expr) c03Val {
+	c := x.c
+	switch n := e.(type) {
+	case *ast.ParenExpr:
+		return x.expr(n.X)
+	case *ast.BasicLit:
+		switch n.Kind {
+		case token.STRING:
+			s, err := strconv.Unquote(n.Value)
+			if err != nil {
+				return x.unsupported(e, "literal")
+			}
+			return c03Val{Lean: c03CharList(s), Type: "string"}
+		case token.INT:
+			return c03Val{Lean: n.Value, Type: "int"}
+		case token.CHAR:
+			s, err := strconv.Unquote(n.Value)
+			if err != nil || len(s) != 1 {
+				return x.unsupported(e, "literal")
+			}
+			return c03Val{Lean: fmt.Sprintf("(Char.ofNat %d)", s[0]), Type: "byte"}
 		}
-		st := structs[cl.Name]
-		ftype := map[string]string{}
-		if st != nil {
-			for _, f := range st.Fields.List {
-				for _, n := range f.Names {
-					ftype[n.Name] = c.src(f.Type)
-					cl.Fields = append(cl.Fields, [2]string{n.Name, c.src(f.Type)})
+		return x.unsupported(e, "literal")
+	case *ast.Ident:
+		switch n.Name {
+		case "true", "false":
+			return c03Val{Lean: n.Name, Type: "bool"}
+		}
+		if v, ok := x.env[n.Name]; ok {
+			return v
+		}
+		return x.unsupported(e, "identifier")
+	case *ast.SelectorExpr:
+		if id, ok := n.X.(*ast.Ident); ok && id.Name == x.recvVar {
+			if t, ok := x.ftype[n.Sel.Name]; ok {
+				return c03Val{Lean: "c." + n.Sel.Name, Type: t, Fields: []string{n.Sel.Name}, Plain: n.Sel.Name}
+			}
+			return x.unsupported(e, "no_such_field")
+		}
+		if id, ok := n.X.(*ast.Ident); ok {
+			if _, isPkg := x.imports[id.Name]; isPkg {
+				if _, shadow := x.env[id.Name]; !shadow {
+					// a package-level constant or variable
+					return c03Val{Lean: "Go." + c03San(x.pkgKey(id.Name)) + "_" + n.Sel.Name, Type: ""}
 				}
 			}
 		}
-		// the Sprintf call
-		var call *ast.CallExpr
-		ast.Inspect(fd.Body, func(n ast.Node) bool {
-			if ce, ok := n.(*ast.CallExpr); ok && call == nil && c.src(ce.Fun) == "fmt.Sprintf" {
-				call = ce
-			}
-			return true
-		})
-		// how the path is turned into the hash: the returned expression
-		for _, s := range fd.Body.List {
-			if r, ok := s.(*ast.ReturnStmt); ok && len(r.Results) == 1 {
-				cl.HashFn = c.src(r.Results[0])
-			}
-		}
-		if call == nil || len(call.Args) == 0 {
-			cl.Problem = "no fmt.Sprintf call"
-			claims = append(claims, cl)
-			continue
-		}
-		lit, ok := call.Args[0].(*ast.BasicLit)
-		if !ok || lit.Kind != token.STRING {
-			cl.Problem = "format is not a string literal"
-			claims = append(claims, cl)
-			continue
-		}
-		format, err := strconv.Unquote(lit.Value)
-		if err != nil {
-			fail("C03: %s: cannot unquote format %s", cl.Where, lit.Value)
-		}
-		cl.Format = format
-		args := call.Args[1:]
-		ai := 0
-		cur := ""
-		flush := func() {
-			if cur != "" {
-				cl.Segs = append(cl.Segs, c03Seg{Lit: cur})
-				cur = ""
-			}
-		}
-		bs := []byte(format)
-		for i := 0; i < len(bs); i++ {
-			if bs[i] != '%' {
-				cur += string(bs[i])
-				continue
-			}
-			if i+1 < len(bs) && bs[i+1] == '%' {
-				cur += "%"
-				i++
-				continue
-			}
-			// verb with optional flags/width: everything up to the first letter
-			j := i + 1
-			for j < len(bs) && !((bs[j] >= 'a' && bs[j] <= 'z') || (bs[j] >= 'A' && bs[j] <= 'Z')) {
-				j++
-			}
-			if j >= len(bs) {
-				cl.Problem = "dangling % in format"
-				break
-			}
-			verb := string(bs[i+1 : j+1])
-			verb = strings.NewReplacer("+", "plus", "#", "sharp", "-", "minus", " ", "sp", ".", "dot", "0", "zero").Replace(verb)
-			flush()
-			if ai >= len(args) {
-				cl.Problem = "more verbs than arguments"
-				break
-			}
-			seg := c03Seg{Verb: verb}
-			a := args[ai]
-			ai++
-			// m.Field   |   m.Field.String()
-			if se, ok := a.(*ast.SelectorExpr); ok && c.src(se.X) == recvVar {
-				seg.Field = se.Sel.Name
-				seg.Tag = c03TypeTag(ftype[se.Sel.Name])
-			} else if ce, ok := a.(*ast.CallExpr); ok && len(ce.Args) == 0 {
-				if se, ok := ce.Fun.(*ast.SelectorExpr); ok {
-					if in, ok := se.X.(*ast.SelectorExpr); ok && c.src(in.X) == recvVar {
-						seg.Field = in.Sel.Name
-						seg.Tag = c03TypeTag(ftype[in.Sel.Name]) + se.Sel.Name
+		v := x.expr(n.X)
+		if strings.HasPrefix(v.Type, "@") {
+			rel, tn := c03Split(v.Type)
+			if st := c.structs(rel)[tn]; st != nil {
+				for _, f := range st.Fields.List {
+					for _, fn := range f.Names {
+						if fn.Name == n.Sel.Name {
+							return c03Val{Lean: c03Paren(v.Lean) + "." + n.Sel.Name, Type: c.src(f.Type), Fields: v.Fields}
+						}
 					}
 				}
 			}
-			if seg.Field == "" {
-				// an expression that is not a plain field: name it so that the Lean side does not compile
-				seg.Field = "UNSUPPORTED"
-				seg.Tag = c03TypeTag(c.src(a))
+		}
+		return c03Val{Lean: "Go.field_" + n.Sel.Name + " " + c03Paren(v.Lean), Type: "", Fields: v.Fields}
+	case *ast.BinaryExpr:
+		if n.Op == token.ADD {
+			a, b := x.expr(n.X), x.expr(n.Y)
+			if a.Type == "string" && b.Type == "string" {
+				return c03Val{Lean: c03Paren(a.Lean) + " ++ " + c03Paren(b.Lean), Type: "string", Fields: c03Union(a.Fields, b.Fields)}
 			}
-			cl.Segs = append(cl.Segs, seg)
-			i = j
 		}
+		return x.unsupported(e, "operator")
+	case *ast.CallExpr:
+		return x.call(n)
+	}
+	return x.unsupported(e, "expression")
+}
+
+func c03Split(t string) (string, string) {
+	t = strings.TrimPrefix(t, "@")
+	i := strings.LastIndex(t, "#")
+	return t[:i], t[i+1:]
+}
+
+// pkgKey names a package in generated identifiers: repository packages by their directory, others by the last path element
+func (x *c03Tr) pkgKey(alias string) string {
+	p := x.imports[alias]
+	if strings.HasPrefix(p, modPath) {
+		return strings.TrimPrefix(p, modPath)
+	}
+	return p[strings.LastIndex(p, "/")+1:]
+}
+
+func (x *c03Tr) call(n *ast.CallExpr) c03Val {
+	c := x.c
+	// conversions
+	switch f := n.Fun.(type) {
+	case *ast.ArrayType:
+		if len(n.Args) == 1 {
+			v := x.expr(n.Args[0])
+			return c03Val{Lean: "Go.conv_" + c03San(c.src(f)) + " " + c03Paren(v.Lean), Type: c.src(f), Fields: v.Fields}
+		}
+	case *ast.Ident:
+		if _, local := x.env[f.Name]; !local {
+			switch f.Name {
+			case "string", "uint64", "int64", "int", "uint32", "uint8", "byte":
+				if len(n.Args) == 1 {
+					v := x.expr(n.Args[0])
+					return c03Val{Lean: "Go.conv_" + f.Name + " " + c03Paren(v.Lean), Type: f.Name, Fields: v.Fields}
+				}
+			case "len":
+				if len(n.Args) == 1 {
+					v := x.expr(n.Args[0])
+					return c03Val{Lean: "Go.len " + c03Paren(v.Lean), Type: "int", Fields: v.Fields}
+				}
+			}
+			// a function of the same package
+			as, fs := x.args(n.Args)
+			t, _ := x.repoResult(x.rel, "", f.Name)
+			return c03Val{Lean: "Go." + c03San(x.rel) + "_" + f.Name + as, Type: t, Fields: fs}
+		}
+	case *ast.SelectorExpr:
+		if id, ok := f.X.(*ast.Ident); ok {
+			if ip, isPkg := x.imports[id.Name]; isPkg && id.Name != x.recvVar {
+				if _, shadow := x.env[id.Name]; !shadow {
+					if ip == "fmt" && f.Sel.Name == "Sprintf" {
+						return x.sprintf(n)
+					}
+					as, fs := x.args(n.Args)
+					var t string
+					if strings.HasPrefix(ip, modPath) {
+						t, _ = x.repoResult(strings.TrimPrefix(ip, modPath), "", f.Sel.Name)
+					} else {
+						t = c03ExtResult[ip+"."+f.Sel.Name]
+					}
+					return c03Val{Lean: "Go." + c03San(x.pkgKey(id.Name)) + "_" + f.Sel.Name + as, Type: t, Fields: fs}
+				}
+			}
+			if id.Name == x.recvVar {
+				// generated protobuf getter m.GetF() == m.F
+				if strings.HasPrefix(f.Sel.Name, "Get") && len(n.Args) == 0 {
+					if t, ok := x.ftype[strings.TrimPrefix(f.Sel.Name, "Get")]; ok {
+						fn := strings.TrimPrefix(f.Sel.Name, "Get")
+						return c03Val{Lean: "c." + fn, Type: t, Fields: []string{fn}, Plain: fn}
+					}
+				}
+				// another method of the claim itself: not followed
+				as, fs := x.args(n.Args)
+				return c03Val{Lean: "Go.claim_method_" + f.Sel.Name + " c" + as, Type: "", Fields: append(fs, "*"+f.Sel.Name)}
+			}
+		}
+		// method call on an expression
+		recv := x.expr(f.X)
+		as, fs := x.args(n.Args)
+		fs = c03Union(recv.Fields, fs)
+		switch {
+		case strings.HasPrefix(recv.Type, "@"):
+			rel, tn := c03Split(recv.Type)
+			t, _ := x.repoResult(rel, tn, f.Sel.Name)
+			return c03Val{Lean: "Go." + c03San(rel) + "_" + tn + "_" + f.Sel.Name + " " + c03Paren(recv.Lean) + as, Type: t, Fields: fs}
+		case c03IsInt(recv.Type):
+			return c03Val{Lean: "Go.math_Int_" + f.Sel.Name + " " + c03Paren(recv.Lean) + as, Type: c03ExtResult["Int."+f.Sel.Name], Fields: fs}
+		case recv.Type != "":
+			return c03Val{Lean: "Go." + c03San(recv.Type) + "_" + f.Sel.Name + " " + c03Paren(recv.Lean) + as, Type: c03ExtResult[recv.Type+"."+f.Sel.Name], Fields: fs}
+		}
+		return c03Val{Lean: "Go.method_" + f.Sel.Name + " " + c03Paren(recv.Lean) + as, Type: "", Fields: fs}
+	}
+	return x.unsupported(n, "call")
+}
+
+// sprintf translates fmt.Sprintf(<literal>, args...) into the right-nested concatenation seg ++ (lit :: (seg ++ …))
+func (x *c03Tr) sprintf(call *ast.CallExpr) c03Val {
+	c := x.c
+	if len(call.Args) == 0 {
+		return x.unsupported(call, "sprintf")
+	}
+	lit, ok := call.Args[0].(*ast.BasicLit)
+	if !ok || lit.Kind != token.STRING {
+		return x.unsupported(call, "format_is_not_a_string_literal")
+	}
+	format, err := strconv.Unquote(lit.Value)
+	if err != nil {
+		return x.unsupported(call, "format")
+	}
+	args := call.Args[1:]
+	var segs []c03Seg
+	ai := 0
+	cur := ""
+	flush := func() {
+		if cur != "" {
+			segs = append(segs, c03Seg{Lit: cur})
+			cur = ""
+		}
+	}
+	bs := []byte(format)
+	for i := 0; i < len(bs); i++ {
+		if bs[i] != '%' {
+			cur += string(bs[i])
+			continue
+		}
+		if i+1 < len(bs) && bs[i+1] == '%' {
+			cur += "%"
+			i++
+			continue
+		}
+		// verb with optional flags/width: everything up to the first letter
+		j := i + 1
+		for j < len(bs) && !((bs[j] >= 'a' && bs[j] <= 'z') || (bs[j] >= 'A' && bs[j] <= 'Z')) {
+			j++
+		}
+		if j >= len(bs) {
+			return x.unsupported(call, "dangling_percent_in_format")
+		}
+		verb := string(bs[i+1 : j+1])
+		verb = strings.NewReplacer("+", "plus", "#", "sharp", "-", "minus", " ", "sp", ".", "dot", "0", "zero").Replace(verb)
 		flush()
-		if cl.Problem == "" && ai != len(args) {
-			cl.Problem = "more arguments than verbs"
+		if ai >= len(args) {
+			return x.unsupported(call, "more_verbs_than_arguments")
 		}
-		claims = append(claims, cl)
+		a := args[ai]
+		ai++
+		seg := c03Seg{Verb: verb, Src: c.src(a)}
+		v := x.expr(a)
+		seg.Fields = v.Fields
+		if len(v.Fields) > 0 {
+			seg.Field = v.Fields[0]
+		}
+		seg.Lean, seg.Tag = v.Lean, c03TypeTag(v.Type)
+		if v.Plain != "" {
+			seg.Plain = true
+		}
+		// m.F.String() of an sdkmath.Int field: the long-standing combined renderer
+		if ce, ok := a.(*ast.CallExpr); ok && len(ce.Args) == 0 {
+			if se, ok := ce.Fun.(*ast.SelectorExpr); ok && se.Sel.Name == "String" {
+				if r := x.expr(se.X); r.Plain != "" && c03IsInt(r.Type) {
+					seg.Lean, seg.Tag, seg.Plain = r.Lean, "IntString", true
+				}
+			}
+		}
+		segs = append(segs, seg)
+		i = j
+	}
+	flush()
+	if ai != len(args) {
+		return x.unsupported(call, "more_arguments_than_verbs")
+	}
+	expr := ""
+	var fields []string
+	for i := len(segs) - 1; i >= 0; i-- {
+		s := segs[i]
+		if s.Verb == "" {
+			if expr == "" {
+				expr = c03CharList(s.Lit)
+			} else {
+				cs := strings.TrimSuffix(strings.TrimPrefix(c03CharList(s.Lit), "["), "]")
+				expr = strings.ReplaceAll(cs, ", ", " :: ") + " :: (" + expr + ")"
+			}
+		} else {
+			f := fmt.Sprintf("fmt_%s_%s %s", s.Verb, s.Tag, c03Paren(s.Lean))
+			if expr == "" {
+				expr = f
+			} else {
+				expr = f + "\n  ++ (" + expr + ")"
+			}
+		}
+	}
+	for _, s := range segs {
+		fields = c03Union(fields, s.Fields)
+	}
+	if expr == "" {
+		expr = "[]"
+	}
+	return c03Val{Lean: expr, Type: "string", Fields: fields, Segs: segs, Format: format}
+}
+
+// ---------------------------------------------------------------------------------------------------------
+// ValidateBasic -> validGen
+
+type c03Check struct {
+	Kind string // chain bech ext nonneg hex nonzero nonempty leneq allext members
+	Lean string
+	Src  string
+}
+
+var (
+	c03ReField = `(\w+)\.(\w+)`
+	c03ReBech  = regexp.MustCompile(`^_, err :?= sdk\.AccAddressFromBech32\(` + c03ReField + `\)$`)
+	c03ReExt   = regexp.MustCompile(`^err :?= ValidateExternalAddr\((\w+)\.ChainName, ([\w.]+)\)$`)
+	c03ReHex   = regexp.MustCompile(`^_, err :?= hex\.DecodeString\(` + c03ReField + `\)$`)
+	c03ReNeg   = regexp.MustCompile(`^` + c03ReField + `\.IsNil\(\) \|\| (\w+)\.(\w+)\.IsNegative\(\)$`)
+	c03ReZero  = regexp.MustCompile(`^([\w.]+) == 0$`)
+	c03ReEmpty = regexp.MustCompile(`^len\(` + c03ReField + `\) == 0$`)
+	c03ReLenGt = regexp.MustCompile(`^len\(` + c03ReField + `\) > 0$`)
+	c03ReLenNe = regexp.MustCompile(`^len\(` + c03ReField + `\) != len\((\w+)\.(\w+)\)$`)
+	c03ReChain = regexp.MustCompile(`^_, ok :?= externalAddressRouter\[(\w+)\.ChainName\]$`)
+)
+
+// c03Checks translates the statements of a ValidateBasic body; `recv` is the receiver variable, `elem` (when non-empty) the
+// loop variable of an enclosing range statement, rendered as Lean variable `x`
+func (x *c03Tr) checks(stmts []ast.Stmt, recv string, elem string, elemIsStruct bool, depth int) (out []c03Check, unmodelled []string) {
+	c := x.c
+	leanOf := func(sel string) (string, bool) { // "m.F" | "elem" | "elem.F"
+		if strings.HasPrefix(sel, recv+".") {
+			f := strings.TrimPrefix(sel, recv+".")
+			if _, ok := x.ftype[f]; ok {
+				return "c." + f, true
+			}
+		}
+		if elem != "" && sel == elem {
+			return "x", true
+		}
+		if elem != "" && strings.HasPrefix(sel, elem+".") {
+			return "x." + strings.TrimPrefix(sel, elem+"."), true
+		}
+		return "", false
+	}
+	for _, s := range stmts {
+		src := c.src(s)
+		first := strings.SplitN(src, "\n", 2)[0]
+		switch n := s.(type) {
+		case *ast.ReturnStmt:
+			if len(n.Results) == 1 {
+				if ce, ok := n.Results[0].(*ast.CallExpr); ok && len(ce.Args) == 0 && depth < 3 {
+					if se, ok := ce.Fun.(*ast.SelectorExpr); ok && c.src(se.X) == recv {
+						// return m.validateBasic(): inline
+						if fd := c.findFunc(x.rel, "*", se.Sel.Name); fd != nil && fd.Body != nil && recvNameOf(fd) != "" {
+							r2 := ""
+							if len(fd.Recv.List[0].Names) == 1 {
+								r2 = fd.Recv.List[0].Names[0].Name
+							}
+							o, u := x.checks(fd.Body.List, r2, "", false, depth+1)
+							out = append(out, o...)
+							unmodelled = append(unmodelled, u...)
+							continue
+						}
+					}
+				}
+				if c.src(n.Results[0]) == "nil" {
+					continue
+				}
+			}
+			unmodelled = append(unmodelled, first)
+		case *ast.IfStmt:
+			init, cond := "", c.src(n.Cond)
+			if n.Init != nil {
+				init = c.src(n.Init)
+			}
+			switch {
+			case c03ReChain.MatchString(init) && cond == "!ok":
+				out = append(out, c03Check{Kind: "chain", Src: first})
+			case c03ReBech.MatchString(init) && cond == "err != nil":
+				m := c03ReBech.FindStringSubmatch(init)
+				if l, ok := leanOf(m[1] + "." + m[2]); ok {
+					out = append(out, c03Check{"bech", "isBech32ish " + l, first})
+				} else {
+					unmodelled = append(unmodelled, first)
+				}
+			case c03ReExt.MatchString(init) && cond == "err != nil":
+				m := c03ReExt.FindStringSubmatch(init)
+				if l, ok := leanOf(m[2]); ok {
+					out = append(out, c03Check{"ext", "isExtAddr k " + l, first})
+				} else {
+					unmodelled = append(unmodelled, first)
+				}
+			case init == "" && c03ReNeg.MatchString(cond):
+				m := c03ReNeg.FindStringSubmatch(cond)
+				if l, ok := leanOf(m[1] + "." + m[2]); ok && m[1] == m[3] && m[2] == m[4] {
+					out = append(out, c03Check{"nonneg", "isNonNeg " + l, first})
+				} else {
+					unmodelled = append(unmodelled, first)
+				}
+			case c03ReHex.MatchString(init) && strings.HasSuffix(cond, " && err != nil") && c03ReLenGt.MatchString(strings.TrimSuffix(cond, " && err != nil")):
+				m := c03ReHex.FindStringSubmatch(init)
+				g := c03ReLenGt.FindStringSubmatch(strings.TrimSuffix(cond, " && err != nil"))
+				if l, ok := leanOf(m[1] + "." + m[2]); ok && g[1] == m[1] && g[2] == m[2] {
+					out = append(out, c03Check{"hex", "isHexData " + l, first})
+				} else {
+					unmodelled = append(unmodelled, first)
+				}
+			case c03ReHex.MatchString(init) && cond == "err != nil":
+				// unconditional hex.DecodeString: the empty string decodes fine, same class
+				m := c03ReHex.FindStringSubmatch(init)
+				if l, ok := leanOf(m[1] + "." + m[2]); ok {
+					out = append(out, c03Check{"hex", "isHexData " + l, first})
+				} else {
+					unmodelled = append(unmodelled, first)
+				}
+			case init == "" && c03ReLenGt.MatchString(cond) && len(n.Body.List) == 1 && n.Else == nil:
+				// if len(m.F) > 0 { if _, err = hex.DecodeString(m.F); err != nil { return … } }
+				g := c03ReLenGt.FindStringSubmatch(cond)
+				in, ok := n.Body.List[0].(*ast.IfStmt)
+				if ok && in.Init != nil && c03ReHex.MatchString(c.src(in.Init)) && c.src(in.Cond) == "err != nil" {
+					m := c03ReHex.FindStringSubmatch(c.src(in.Init))
+					if l, ok := leanOf(m[1] + "." + m[2]); ok && g[1] == m[1] && g[2] == m[2] {
+						out = append(out, c03Check{"hex", "isHexData " + l, first})
+						continue
+					}
+				}
+				unmodelled = append(unmodelled, first)
+			case init == "" && c03ReZero.MatchString(cond):
+				m := c03ReZero.FindStringSubmatch(cond)
+				if l, ok := leanOf(m[1]); ok {
+					out = append(out, c03Check{"nonzero", l + " != 0", first})
+				} else {
+					unmodelled = append(unmodelled, first)
+				}
+			case init == "" && c03ReEmpty.MatchString(cond):
+				m := c03ReEmpty.FindStringSubmatch(cond)
+				if l, ok := leanOf(m[1] + "." + m[2]); ok {
+					out = append(out, c03Check{"nonempty", "!" + l + ".isEmpty", first})
+				} else {
+					unmodelled = append(unmodelled, first)
+				}
+			case init == "" && c03ReLenNe.MatchString(cond):
+				m := c03ReLenNe.FindStringSubmatch(cond)
+				a, ok1 := leanOf(m[1] + "." + m[2])
+				b, ok2 := leanOf(m[3] + "." + m[4])
+				if ok1 && ok2 {
+					out = append(out, c03Check{"leneq", a + ".length == " + b + ".length", first})
+				} else {
+					unmodelled = append(unmodelled, first)
+				}
+			default:
+				unmodelled = append(unmodelled, first)
+			}
+		case *ast.RangeStmt:
+			// for _, e := range m.F { checks on e }
+			l, ok := leanOf(c.src(n.X))
+			v, isId := n.Value.(*ast.Ident)
+			if !ok || !isId || elem != "" {
+				unmodelled = append(unmodelled, first)
+				continue
+			}
+			inner, u := x.checks(n.Body.List, recv, v.Name, true, depth)
+			unmodelled = append(unmodelled, u...)
+			if len(inner) == 0 {
+				continue
+			}
+			var parts []string
+			for _, ic := range inner {
+				parts = append(parts, ic.Lean)
+			}
+			body := strings.Join(parts, " && ")
+			if len(inner) == 1 && strings.HasSuffix(body, " x") && !strings.Contains(strings.TrimSuffix(body, " x"), "x.") {
+				out = append(out, c03Check{"all", l + ".all (" + strings.TrimSuffix(body, " x") + ")", first})
+			} else {
+				out = append(out, c03Check{"all", l + ".all (fun x => " + body + ")", first})
+			}
+		default:
+			unmodelled = append(unmodelled, first)
+		}
+	}
+	return out, unmodelled
+}
+
+func recvNameOf(fd *ast.FuncDecl) string { return recvName(fd) }
+
+// ---------------------------------------------------------------------------------------------------------
+// fields of a claim the keeper reads while executing it
+
+// methodReads: receiver fields a method of the claim type reads (methods of the same receiver followed)
+func (c *ctxT) c03MethodReads(tn, method string, seen map[string]bool) []string {
+	if seen[method] {
+		return nil
+	}
+	seen[method] = true
+	fd := c.findFunc(c03Pkg, tn, method)
+	if fd == nil || fd.Body == nil || len(fd.Recv.List[0].Names) != 1 {
+		return nil
+	}
+	rv := fd.Recv.List[0].Names[0].Name
+	var out []string
+	ast.Inspect(fd.Body, func(n ast.Node) bool {
+		if ce, ok := n.(*ast.CallExpr); ok {
+			if se, ok := ce.Fun.(*ast.SelectorExpr); ok {
+				if id, ok := se.X.(*ast.Ident); ok && id.Name == rv {
+					out = append(out, c.c03MethodReads(tn, se.Sel.Name, seen)...)
+				}
+			}
+		}
+		if se, ok := n.(*ast.SelectorExpr); ok {
+			if id, ok := se.X.(*ast.Ident); ok && id.Name == rv {
+				out = append(out, se.Sel.Name)
+			}
+		}
+		return true
+	})
+	return out
+}
+
+// c03ReadFields scans x/crosschain/keeper for variables of type *types.<tn> (parameters and type-switch bindings) and
+// collects the fields read through them
+func (c *ctxT) c03ReadFields(tn string, fields map[string]bool) (reads []string, sites []string) {
+	set := map[string]bool{}
+	add := func(f string) {
+		if fields[f] {
+			set[f] = true
+		}
+	}
+	scan := func(body ast.Node, v string, where string) {
+		used := false
+		ast.Inspect(body, func(n ast.Node) bool {
+			switch m := n.(type) {
+			case *ast.CallExpr:
+				if se, ok := m.Fun.(*ast.SelectorExpr); ok {
+					if id, ok := se.X.(*ast.Ident); ok && id.Name == v {
+						used = true
+						name := se.Sel.Name
+						if strings.HasPrefix(name, "Get") && fields[strings.TrimPrefix(name, "Get")] {
+							add(strings.TrimPrefix(name, "Get"))
+						}
+						for _, f := range c.c03MethodReads(tn, name, map[string]bool{}) {
+							add(f)
+						}
+					}
+				}
+			case *ast.SelectorExpr:
+				if id, ok := m.X.(*ast.Ident); ok && id.Name == v {
+					used = true
+					add(m.Sel.Name)
+				}
+			}
+			return true
+		})
+		if used {
+			sites = append(sites, where)
+		}
+	}
+	isT := func(t ast.Expr) bool {
+		s := c.src(t)
+		return s == "*types."+tn || s == "types."+tn || s == "*"+tn
+	}
+	for _, fd := range c.funcDecls(c03Keeper) {
+		if fd.Body == nil {
+			continue
+		}
+		for _, p := range fd.Type.Params.List {
+			if isT(p.Type) {
+				for _, nm := range p.Names {
+					scan(fd.Body, nm.Name, c.pos(fd)+" "+fd.Name.Name)
+				}
+			}
+		}
+		// switch claim := x.(type) { case *types.T: … }
+		ast.Inspect(fd.Body, func(n ast.Node) bool {
+			ts, ok := n.(*ast.TypeSwitchStmt)
+			if !ok {
+				return true
+			}
+			as, ok := ts.Assign.(*ast.AssignStmt)
+			if !ok || len(as.Lhs) != 1 {
+				return true
+			}
+			v := c.src(as.Lhs[0])
+			for _, cc := range ts.Body.List {
+				cl := cc.(*ast.CaseClause)
+				if len(cl.List) == 1 && isT(cl.List[0]) {
+					for _, st := range cl.Body {
+						scan(st, v, c.pos(cl)+" "+fd.Name.Name+" (type switch)")
+					}
+				}
+			}
+			return true
+		})
+	}
+	reads = sortedKeys(set)
+	sort.Strings(sites)
+	return reads, sites
+}
+
+// ---------------------------------------------------------------------------------------------------------
+
+func extractC03(c *ctxT) {
+	structs := c.structs(c03Pkg)
+	type claimT struct {
+		Name       string
+		Segs       []c03Seg
+		Format     string
+		Path       string
+		HashFn     string
+		Where      string
+		Fields     [][2]string
+		Hashed     []string
+		Problems   []string
+		Checks     []c03Check
+		Unmodelled []string
+		ValidWhere string
+		Reads      []string
+		ReadSites  []string
+	}
+	var claims []claimT
+	p := c.pkg(c03Pkg)
+	for _, fn := range sortedKeys(p) {
+		file := p[fn]
+		for _, d := range file.Decls {
+			fd, ok := d.(*ast.FuncDecl)
+			if !ok || fd.Name.Name != "ClaimHash" || fd.Recv == nil || fd.Body == nil {
+				continue
+			}
+			cl := claimT{Name: recvName(fd), Where: c.pos(fd)}
+			recvVar := ""
+			if len(fd.Recv.List[0].Names) == 1 {
+				recvVar = fd.Recv.List[0].Names[0].Name
+			}
+			st := structs[cl.Name]
+			ftype := map[string]string{}
+			fset := map[string]bool{}
+			if st != nil {
+				for _, f := range st.Fields.List {
+					for _, n := range f.Names {
+						ftype[n.Name] = c.src(f.Type)
+						fset[n.Name] = true
+						cl.Fields = append(cl.Fields, [2]string{n.Name, c.src(f.Type)})
+					}
+				}
+			}
+			tr := &c03Tr{c: c, rel: c03Pkg, imports: imports(file), recvVar: recvVar, ftype: ftype, env: map[string]c03Val{}}
+			// straight-line body: local definitions, then `return tmhash.Sum([]byte(<path expression>))`
+			var pathVal *c03Val
+			for _, s := range fd.Body.List {
+				switch n := s.(type) {
+				case *ast.AssignStmt:
+					switch {
+					case len(n.Lhs) == len(n.Rhs):
+						vals := make([]c03Val, len(n.Rhs))
+						for i := range n.Rhs {
+							vals[i] = tr.expr(n.Rhs[i])
+						}
+						for i, l := range n.Lhs {
+							if id, ok := l.(*ast.Ident); ok && id.Name != "_" {
+								tr.env[id.Name] = vals[i]
+							} else if !ok {
+								cl.Problems = append(cl.Problems, "assignment to "+c.src(l))
+							}
+						}
+					case len(n.Rhs) == 1 && len(n.Lhs) == 2:
+						// v, err := f(...): the first result
+						if id, ok := n.Lhs[0].(*ast.Ident); ok && id.Name != "_" {
+							tr.env[id.Name] = tr.expr(n.Rhs[0])
+						}
+					default:
+						cl.Problems = append(cl.Problems, "statement not modelled: "+strings.SplitN(c.src(s), "\n", 2)[0])
+					}
+				case *ast.ReturnStmt:
+					if len(n.Results) == 1 {
+						cl.HashFn = c.src(n.Results[0])
+						// tmhash.Sum([]byte(X))
+						if ce, ok := n.Results[0].(*ast.CallExpr); ok && len(ce.Args) == 1 {
+							if conv, ok := ce.Args[0].(*ast.CallExpr); ok && len(conv.Args) == 1 {
+								if _, isArr := conv.Fun.(*ast.ArrayType); isArr {
+									v := tr.expr(conv.Args[0])
+									pathVal = &v
+									if _, isId := conv.Args[0].(*ast.Ident); !isId {
+										// normalise: the hashed expression is named `path` in the Lean text
+										cl.HashFn = c.src(ce.Fun) + "([]byte(path))"
+									} else {
+										cl.HashFn = c.src(ce.Fun) + "([]byte(path))"
+									}
+								}
+							}
+						}
+					}
+				case *ast.DeclStmt:
+					cl.Problems = append(cl.Problems, "statement not modelled: "+strings.SplitN(c.src(s), "\n", 2)[0])
+				default:
+					cl.Problems = append(cl.Problems, "statement not modelled: "+strings.SplitN(c.src(s), "\n", 2)[0])
+				}
+			}
+			if pathVal == nil {
+				// no recognisable hashed expression: fall back to the first fmt.Sprintf of the body
+				var call *ast.CallExpr
+				ast.Inspect(fd.Body, func(n ast.Node) bool {
+					if ce, ok := n.(*ast.CallExpr); ok && call == nil && c.src(ce.Fun) == "fmt.Sprintf" {
+						call = ce
+					}
+					return true
+				})
+				if call != nil {
+					v := tr.sprintf(call)
+					pathVal = &v
+				} else {
+					cl.Problems = append(cl.Problems, "no hashed path expression found")
+					pathVal = &c03Val{Lean: "Go.UNSUPPORTED_no_path", Type: ""}
+				}
+			}
+			cl.Path, cl.Segs, cl.Format, cl.Hashed = pathVal.Lean, pathVal.Segs, pathVal.Format, pathVal.Fields
+			// ValidateBasic
+			if vb := c.findFunc(c03Pkg, cl.Name, "ValidateBasic"); vb != nil && vb.Body != nil && len(vb.Recv.List[0].Names) == 1 {
+				cl.ValidWhere = c.pos(vb)
+				cl.Checks, cl.Unmodelled = tr.checks(vb.Body.List, vb.Recv.List[0].Names[0].Name, "", false, 0)
+			} else {
+				cl.Unmodelled = append(cl.Unmodelled, "no ValidateBasic method found")
+			}
+			cl.Reads, cl.ReadSites = c.c03ReadFields(cl.Name, fset)
+			claims = append(claims, cl)
+		}
 	}
 	if len(claims) == 0 {
 		fail("C03: no ClaimHash methods found in %s", c03Pkg)
@@ -198,41 +890,22 @@ func extractC03(c *ctxT) {
 	sort.Slice(claims, func(i, j int) bool { return claims[i].Name < claims[j].Name })
 
 	var sb strings.Builder
-	sb.WriteString("import FxVerif.Model.C03Fmt\n\n-- the generated `path` of each claim type lives in the namespace of the model's claim record (so `c.path` resolves)\nnamespace FxVerif.Model.C03\n\n")
+	sb.WriteString("import FxVerif.Model.C03Go\n\n-- the generated `path` / `validGen` of each claim type live in the namespace of the model's claim record (so `c.path` resolves)\nnamespace FxVerif.Model.C03\n\n")
 	var names []string
 	factClaims := map[string]any{}
 	for _, cl := range claims {
 		names = append(names, leanStr(cl.Name))
 		fmt.Fprintf(&sb, "/-! ### %s  (%s)\n  format %s -/\n\n", cl.Name, cl.Where, strings.ReplaceAll(leanStr(cl.Format), "-/", "- /"))
-		if cl.Problem != "" {
-			fmt.Fprintf(&sb, "-- extractor: %s\n", cl.Problem)
+		for _, pr := range cl.Problems {
+			fmt.Fprintf(&sb, "-- extractor: %s\n", strings.ReplaceAll(pr, "-/", "- /"))
 		}
-		// path function, right-nested: seg ++ (lit :: (seg ++ …))
 		var hashed []string
-		expr := ""
-		for i := len(cl.Segs) - 1; i >= 0; i-- {
-			s := cl.Segs[i]
-			if s.Verb == "" {
-				if expr == "" {
-					expr = c03CharList(s.Lit)
-				} else {
-					cs := strings.TrimSuffix(strings.TrimPrefix(c03CharList(s.Lit), "["), "]")
-					expr = strings.ReplaceAll(cs, ", ", " :: ") + " :: (" + expr + ")"
-				}
-			} else {
-				f := fmt.Sprintf("fmt_%s_%s c.%s", s.Verb, s.Tag, s.Field)
-				if expr == "" {
-					expr = f
-				} else {
-					expr = f + "\n  ++ (" + expr + ")"
-				}
-				hashed = append([]string{leanStr(s.Field)}, hashed...)
+		for _, f := range cl.Hashed {
+			if !strings.HasPrefix(f, "*") {
+				hashed = append(hashed, leanStr(f))
 			}
 		}
-		if expr == "" {
-			expr = "[]"
-		}
-		fmt.Fprintf(&sb, "def %s.path (c : %s) : Str :=\n  %s\n\n", cl.Name, cl.Name, expr)
+		fmt.Fprintf(&sb, "def %s.path (c : %s) : Str :=\n  %s\n\n", cl.Name, cl.Name, cl.Path)
 		fmt.Fprintf(&sb, "def %s.hashedFields : List String := %s\n\n", cl.Name, leanList(hashed))
 		var sf []string
 		for _, f := range cl.Fields {
@@ -240,14 +913,116 @@ func extractC03(c *ctxT) {
 		}
 		fmt.Fprintf(&sb, "def %s.structFields : List String := %s\n\n", cl.Name, leanList(sf))
 		fmt.Fprintf(&sb, "def %s.hashExpr : String := %s\n\n", cl.Name, leanStr(cl.HashFn))
-		var fsegs []map[string]string
+		// arguments that are not plain fields (function applications over fields)
+		var derived []string
 		for _, s := range cl.Segs {
-			fsegs = append(fsegs, map[string]string{"lit": s.Lit, "verb": s.Verb, "field": s.Field, "tag": s.Tag})
+			if s.Verb != "" && !s.Plain {
+				derived = append(derived, leanStr(s.Src))
+			}
 		}
-		factClaims[cl.Name] = map[string]any{"format": cl.Format, "segments": fsegs, "where": cl.Where, "hash": cl.HashFn, "fields": cl.Fields}
+		if cl.Segs == nil {
+			derived = append(derived, leanStr("<path is not a single fmt.Sprintf>"))
+		}
+		fmt.Fprintf(&sb, "/-- hashed arguments that are not a plain field of the message (function applications) -/\ndef %s.derivedArgs : List String := %s\n\n", cl.Name, leanList(derived))
+		var prs []string
+		for _, pr := range cl.Problems {
+			prs = append(prs, leanStr(pr))
+		}
+		fmt.Fprintf(&sb, "/-- statements of ClaimHash the translator does not model -/\ndef %s.unmodelledStatements : List String := %s\n\n", cl.Name, leanList(prs))
+		// validGen
+		fmt.Fprintf(&sb, "/-- syntactic part of `ValidateBasic` (%s), check by check in source order -/\ndef %s.validGen (k : AddrKind) (c : %s) : Bool :=\n", cl.ValidWhere, cl.Name, cl.Name)
+		var conj []string
+		var fchecks []map[string]string
+		for _, ch := range cl.Checks {
+			fchecks = append(fchecks, map[string]string{"kind": ch.Kind, "lean": ch.Lean, "src": ch.Src})
+			if ch.Kind == "chain" {
+				continue
+			}
+			conj = append(conj, ch.Lean)
+		}
+		if len(conj) == 0 {
+			conj = []string{"true"}
+		}
+		sb.WriteString("  " + strings.Join(conj, "\n  && ") + "\n\n")
+		var um []string
+		for _, u := range cl.Unmodelled {
+			um = append(um, leanStr(u))
+		}
+		fmt.Fprintf(&sb, "/-- statements of ValidateBasic that were not recognised (dropped: the generated class is a superset) -/\ndef %s.unmodelledChecks : List String := %s\n\n", cl.Name, leanList(um))
+		var rd []string
+		for _, r := range cl.Reads {
+			rd = append(rd, leanStr(r))
+		}
+		fmt.Fprintf(&sb, "/-- fields x/crosschain/keeper reads through a variable of this claim type\n")
+		for _, s := range cl.ReadSites {
+			fmt.Fprintf(&sb, "  %s\n", s)
+		}
+		fmt.Fprintf(&sb, "-/\ndef %s.readFields : List String := %s\n\n", cl.Name, leanList(rd))
+
+		var fsegs []map[string]any
+		for _, s := range cl.Segs {
+			fsegs = append(fsegs, map[string]any{"lit": s.Lit, "verb": s.Verb, "field": s.Field, "tag": s.Tag, "src": s.Src, "plain": s.Plain, "fields": s.Fields})
+		}
+		factClaims[cl.Name] = map[string]any{"format": cl.Format, "segments": fsegs, "where": cl.Where, "hash": cl.HashFn, "fields": cl.Fields,
+			"checks": fchecks, "unmodelled_checks": cl.Unmodelled, "read_fields": cl.Reads, "read_sites": cl.ReadSites, "problems": cl.Problems, "path": cl.Path}
 	}
 	sb.WriteString("end FxVerif.Model.C03\n\nnamespace FxVerif.Gen.C03\nopen FxVerif.Model.C03\n\n")
 	fmt.Fprintf(&sb, "/-- every type with a `ClaimHash` method -/\ndef claimTypes : List String := %s\n\n", leanList(names))
+
+	// what the keeper reads through the interface `types.ExternalClaim` (Attest, TryAttestation, handlers, pruning …):
+	// getters `GetF()` of a field F every claim type has
+	common := map[string]int{}
+	for _, cl := range claims {
+		for _, f := range cl.Fields {
+			common[f[0]]++
+		}
+	}
+	generic := map[string]bool{}
+	var genericSites []string
+	for _, fd := range c.funcDecls(c03Keeper) {
+		if fd.Body == nil {
+			continue
+		}
+		for _, prm := range fd.Type.Params.List {
+			if t := c.src(prm.Type); t != "types.ExternalClaim" {
+				continue
+			}
+			for _, nm := range prm.Names {
+				used := false
+				ast.Inspect(fd.Body, func(n ast.Node) bool {
+					ce, ok := n.(*ast.CallExpr)
+					if !ok {
+						return true
+					}
+					se, ok := ce.Fun.(*ast.SelectorExpr)
+					if !ok {
+						return true
+					}
+					if id, ok := se.X.(*ast.Ident); ok && id.Name == nm.Name && strings.HasPrefix(se.Sel.Name, "Get") {
+						if f := strings.TrimPrefix(se.Sel.Name, "Get"); common[f] == len(claims) {
+							generic[f] = true
+							used = true
+						}
+					}
+					return true
+				})
+				if used {
+					genericSites = append(genericSites, c.pos(fd)+" "+fd.Name.Name)
+				}
+			}
+		}
+	}
+	var gl []string
+	for _, f := range sortedKeys(generic) {
+		gl = append(gl, leanStr(f))
+	}
+	sort.Strings(genericSites)
+	fmt.Fprintf(&sb, "/-- fields x/crosschain/keeper reads through the interface `types.ExternalClaim` (getters of fields every claim type has)\n")
+	for _, st := range genericSites {
+		fmt.Fprintf(&sb, "  %s\n", st)
+	}
+	fmt.Fprintf(&sb, "-/\ndef externalClaimReads : List String := %s\n\n", leanList(gl))
+	c.facts["C03.externalClaimReads"] = sortedKeys(generic)
 
 	// chain table
 	type chainT struct{ name, kind, where string }
